@@ -48,6 +48,7 @@ type Contract struct {
 	Decreases *Clause // function-level measure (recursion)
 	Emits     []EmitSpec // ghost events this function appends (assumed at call sites)
 	WF       []string // heap specs for which heap well-formedness axioms are emitted
+	AppendFacts bool  // "appendfacts": emit the derived prefix facts of every append in this function (see doAppend)
 	Ghosts   []GhostDef // ghost integer constants (see "ghost" in loadFile)
 	Partial  bool // partial correctness: self-recursion without a measure is reported instead of being an obligation
 	NoPanicAssumed bool // the run-time checks of this function (nil, index, slice, ...) are assumed, not proved (reported)
@@ -422,6 +423,11 @@ func (cs *ContractSet) loadFile(path string) error {
 				return fmt.Errorf("%s:%d: partial outside func", path, r.line)
 			}
 			cur.Partial = true
+		case "appendfacts":
+			if cur == nil {
+				return fmt.Errorf("%s:%d: appendfacts outside func", path, r.line)
+			}
+			cur.AppendFacts = true
 		case "inline":
 			cur.Inline = true
 		case "trusted":
